@@ -265,6 +265,13 @@ func buildDoc(defs []def, use string, useForm, useKind int, usePos int, useCont 
 		u = "# " + u
 	case 3:
 		u = "## q " + u + " ##"
+	case 4:
+		// directly followed by brackets that are not a link label (a label holds
+		// no unescaped bracket): "not followed by [] or a link label", so a
+		// shortcut reference stays one; '?' is in no label of the alphabet
+		u = "q " + u + "[w? [w?]] q"
+	case 5:
+		u = "q " + u + "[w?[w?] q"
 	default:
 		u = "q " + u + " q"
 	}
@@ -339,7 +346,7 @@ func propResolve(c harness.Case) harness.Result {
 		}
 	}
 	place := c.I["place"]
-	if strings.ContainsAny(use, "\r\n") && place >= 2 {
+	if strings.ContainsAny(use, "\r\n") && (place == 2 || place == 3) {
 		place = 0 // a label that spans lines cannot sit in an ATX heading
 	}
 	doc := buildDoc(defs, use, c.I["form"], c.I["kind"], c.I["pos"], c.I["usecont"], place, c.I["nofinalnl"] == 1)
@@ -460,7 +467,7 @@ func genResolve(t *rapid.T) harness.Case {
 	}
 	c.SetS("use", use)
 	c.SetI("form", rapid.IntRange(0, 3).Draw(t, "form"))
-	c.SetI("place", []int{0, 0, 0, 1, 1, 2, 3}[rapid.IntRange(0, 6).Draw(t, "place")])
+	c.SetI("place", []int{0, 0, 0, 1, 1, 2, 3, 4, 5}[rapid.IntRange(0, 8).Draw(t, "place")])
 	if rapid.IntRange(0, 3).Draw(t, "nofinalnl") == 0 {
 		c.SetI("nofinalnl", 1)
 	}
